@@ -637,7 +637,7 @@ def _run(ctx, quick, rnd, suffix, pool):
             n_sim += 1
 
     # 3. random larger scripts
-    nrand = 1000 if quick else 60000
+    nrand = 1000 if quick else 20000
     for i in range(nrand):
         cases.append(({'origin': 'random-fine' if i % 2 else 'random'}, random_script(rnd, quick, fine=bool(i % 2)), None))
 
